@@ -15,7 +15,11 @@ WATER = {"cls": list("STED"), "val6": -18010560, "regex": "[STED]", "val": -18.0
 AMMONIA = {"cls": list("RKNQ"), "val6": -17026550, "regex": "[RKNQ]", "val": -17.02655}
 CUSTOM = [{"cls": list("AG"), "val6": -5500000, "regex": "[AG]", "val": -5.5},
           {"cls": ["P"], "val6": 12250000, "regex": "[P]", "val": 12.25},
-          {"cls": list("KR"), "val6": -30010000, "regex": "[KR]", "val": -30.01}]
+          {"cls": list("KR"), "val6": -30010000, "regex": "[KR]", "val": -30.01},
+          # rules that look at an edge of the ion (of the ion's own residues)
+          {"cls": list("QE"), "val6": -17026550, "regex": "^[QE]", "val": -17.02655, "edge": "first"},
+          {"cls": list("KR"), "val6": -9250000, "regex": "[KR]$", "val": -9.25, "edge": "last"},
+          {"cls": list("ST"), "val6": -18010560, "regex": "(?<!A)[ST]", "val": -18.01056, "edge": "notafterA"}]
 
 
 
@@ -79,7 +83,8 @@ def fragment_event(pp, tid, A, types, charges, isotopes, rules, max_losses, mono
         return frs, others, fobj, rec
     o, r = call(f)
     ev = {"tid": tid, "k": "fragment", "A": A, "types": list(types), "charges": list(charges), "isotopes": list(isotopes),
-          "rules": [{"cls": r_["cls"], "val6": r_["val6"], "regex": r_["regex"]} for r_ in rules], "maxLosses": max_losses,
+          "rules": [{"cls": r_["cls"], "val6": r_["val6"], "regex": r_["regex"], "edge": r_.get("edge", "any")} for r_ in rules],
+          "maxLosses": max_losses,
           "mono": mono, "prec": prec, "via": via, "out": o}
     if o != "ret":
         ev.update(frags=[], masses=[], mzs=[], labels=[], massLabels=[], mzLabels=[], fragmenter=[])
